@@ -450,7 +450,7 @@ def run_check(prop, tier, verif_seed, workers=None, runs=None, budget_s=None):
 
     if errors:
         to = [e for e in errors if e["error"].startswith("op-timeout")]
-        print(f"HARNESS-ERROR {len(errors)} run(s) failed inside the harness; first: {errors[0]['error']}")
+        print(f"HARNESS-ERROR {len(errors)} run(s) failed inside the harness (run indices {[e.get('index') for e in errors][:8]}); first: {errors[0]['error']}")
         exit_code = max(exit_code, 3 if to and len(to) == len(errors) else 2)
 
     # ---- violations: group, minimise, replay, classify -------------------
